@@ -45,12 +45,14 @@
    never accepted.  The reasons are facts the recorder observed, never the outcome of a clause:
 
      whole session (SessionSkip)
-       unsupported-scope         the app callable raised before it asked for the first event (spec / http version
-                                 falcon does not support: tests of the scope validation)
+       unsupported-scope         the app callable raised falcon's UnsupportedScopeError / UnsupportedError before it
+                                 asked for the first event (spec / http version falcon does not support: tests of
+                                 the scope validation)
+       abandoned                 the app callable did not end by itself: it was still pending when the test session
+                                 ended, or it was cancelled / finalised from outside (it ended with a BaseException
+                                 that is no Exception: CancelledError, GeneratorExit)
        framework-patched         the test replaced a method of falcon.asgi.WebSocket (monkeypatch), at the start or
                                  by the end of the session: what ran is not falcon's code
-       unfinished                the app callable had not ended when the test session ended (the test abandoned it)
-       cancelled                 the app task was cancelled from outside (BaseException that is no Exception)
        handlers-removed          an exception reached the framework and NO handler was registered for it: only
                                  possible after the test emptied app._error_handlers; it escapes by design
        error-close-code-not-int  ws_options.error_close_code is not an int (outside the quantifier: configurations)
@@ -59,7 +61,9 @@
        error-code-vocabulary     ws_options.error_close_code <= 0: WebSocket.tla writes "no argument" as 0
        custom-handler            the exception was taken by a handler of the test's own which closed (or not) by
                                  itself: no decision point of the framework follows
-       no-decision-point         nothing of the above was recorded (e.g. the session ended inside the handshake)
+       abandoned-handshake       the first event was not websocket.connect: the close owed is judged as model detail
+                                 (D:abandoned-handshake), as C17 does
+       no-decision-point         nothing of the above was recorded
      An exception that escapes the app callable for any other reason is NOT skipped: CloseAlwaysSent is evaluated
      with esc = "a close attempt was refused by the server" exactly as in C17. *)
 EXTENDS WebSocket, Json, IOUtils
@@ -83,10 +87,9 @@ HasItem(P(_)) == \E i \in 1..Len(T.ev) : P(T.ev[i])
 NoHandler(i)  == i.d = "hx" /\ i.hk = "none"
 
 SessionSkip ==
-    IF T.x.raised /\ Len(T.ev) = 1 THEN "unsupported-scope"
+    IF T.x.unsupported /\ Len(T.ev) = 1 THEN "unsupported-scope"
+    ELSE IF T.x.unfinished \/ T.x.cancelled THEN "abandoned"
     ELSE IF T.x.patched THEN "framework-patched"
-    ELSE IF T.x.unfinished THEN "unfinished"
-    ELSE IF T.x.cancelled THEN "cancelled"
     ELSE IF HasItem(NoHandler) THEN "handlers-removed"
     ELSE IF T.x.ecnotint THEN "error-close-code-not-int"
     ELSE IF T.ver \notin 20..29 THEN "spec-version"
@@ -245,7 +248,9 @@ MOut == IF SessionSkip # "" THEN "skip/session"
         ELSE IF vm # "ok" THEN vm
         ELSE IF vl # "ok" THEN "skip/legality-failed-first"
         ELSE IF sm # "" THEN "skip/" \o sm
-        ELSE IF nm = 0 THEN (IF CustomHandlerOnly THEN "skip/custom-handler" ELSE "skip/no-decision-point")
+        ELSE IF nm = 0 THEN (IF CustomHandlerOnly THEN "skip/custom-handler"
+                             ELSE IF T.ev[1].d = "recv" /\ T.ev[1].t # "connect" THEN "skip/abandoned-handshake"
+                             ELSE "skip/no-decision-point")
         ELSE "ok"
 
 Done == /\ l >= 1 /\ (l > Len(T.ev) \/ vl # "ok")
